@@ -1,5 +1,6 @@
 """C20 Bloom filter: no false negatives, BIP37 bit schedule, lossless wire form."""
 import ast
+import re
 import math
 
 from ..model import UNKNOWN, ClassRef, FuncRef, norm, walk_no_nested
@@ -270,6 +271,32 @@ def rule_siblings(ctx, repo, ci):
             if isinstance(n, ast.Assign) and isinstance(n.value, ast.IfExp) and 'isinstance' in norm(n.value.test) and norm(n.value.orelse) == norm(n.targets[0]):
                 # elem = elem.serialize() if isinstance(elem, COutPoint) else elem
                 out['convert'] = norm(n.value.test) + ' -> ' + '%s = %s' % (norm(n.targets[0]), norm(n.value.body))
+        if 'range' not in out:
+            # the same schedule written with generator expressions: (bloom_hash(i, e) for i in range(n)) consumed by
+            # all(... for idx in <that generator>)
+            gens = {}
+            for n in walk_no_nested(fi.node):
+                if isinstance(n, ast.Assign) and isinstance(n.value, (ast.GeneratorExp, ast.ListComp)) and isinstance(n.targets[0], ast.Name):
+                    gens[n.targets[0].id] = n.value
+            for n in ast.walk(fi.node):
+                if isinstance(n, (ast.GeneratorExp, ast.ListComp)) and len(n.generators) == 1 and not n.generators[0].ifs:
+                    g = n.generators[0]
+                    calls = [c for c in ast.walk(n.elt) if isinstance(c, ast.Call) and norm(c.func) == 'self.bloom_hash']
+                    if calls and isinstance(g.target, ast.Name) and n.elt is calls[0]:
+                        out['range'] = norm(g.iter)
+                        out['loopvar'] = g.target.id
+                        out['index'] = norm(calls[0])
+                    src = g.iter
+                    if isinstance(src, ast.Name) and src.id in gens:
+                        src = gens[src.id]
+                    if isinstance(src, (ast.GeneratorExp, ast.ListComp)) and any(isinstance(c, ast.Call) and norm(c.func) == 'self.bloom_hash' for c in ast.walk(src)) \
+                            and isinstance(g.target, ast.Name):
+                        out['idxvar'] = g.target.id
+                        for m in ast.walk(n.elt):
+                            if isinstance(m, ast.Subscript) and norm(m.value) == 'self.vData' and not isinstance(m.slice, ast.Constant):
+                                out['byte'] = norm(m.slice)
+                            if isinstance(m, ast.Subscript) and 'bit_mask' in norm(m.value):
+                                out['bit'] = canon(m.slice)
         tests = [norm(n.test) for n in fi.node.body if isinstance(n, ast.If)]
         out['shortcuts'] = [t for t in tests if 'isinstance' not in t]
         return out
@@ -282,8 +309,24 @@ def rule_siblings(ctx, repo, ci):
     same_sc = _eq(a['early'], b['early'])
     r.check(same_sc is True, 'agree:shortcuts', ins.site, 'shortcuts: %s' % a['early'],
             'insert and contains disagree on shortcuts: insert leaves early when `%s`, contains when `%s` (an inserted element can then be reported as absent)' % (a['early'], b['early']))
+    def unvar(f_, k):
+        # compare modulo the names of the loop / index variables
+        v = f_.get(k)
+        if v is None:
+            return None
+        for nm, ph in ((f_.get('idxvar'), '$idx'), (f_.get('loopvar'), '$i')):
+            if nm:
+                v = re.sub(r'\b%s\b' % re.escape(nm), ph, v)
+        return v
     for k in ('range', 'index', 'byte', 'bit', 'convert'):
-        r.check(a.get(k) == b.get(k) and a.get(k) is not None, 'agree:%s' % k, ins.site, '%s: %s' % (k, a.get(k)),
+        if a.get(k) is None or b.get(k) is None:
+            which = 'insert' if a.get(k) is None else 'contains'
+            if k == 'convert' and a.get(k) is None and b.get(k) is None:
+                pass
+            else:
+                r.undecided('agree:%s' % k, ins.site, 'the %s of %s is not written in a form this rule reads' % (k, which))
+                continue
+        r.check(unvar(a, k) == unvar(b, k) and a.get(k) is not None, 'agree:%s' % k, ins.site, '%s: %s' % (k, a.get(k)),
                 'insert and contains disagree on %s: insert uses `%s`, contains uses `%s` (an inserted element can then be reported as absent)' % (k, a.get(k), b.get(k)))
     iv = a.get('idxvar', 'nIndex')
     r.check(a.get('range') in ('range(0, self.nHashFuncs)', 'range(self.nHashFuncs)'), 'schedule:range', ins.site, 'i in 0..nHashFuncs-1', 'hash functions iterated over `%s`' % a.get('range'))
@@ -315,8 +358,14 @@ def rule_siblings(ctx, repo, ci):
     rets = [(norm(n.value), n) for n in walk_no_nested(con.node) if isinstance(n, ast.Return)]
     inloop = [t for t, n in rets if isinstance(getattr(getattr(n, '_parent', None), '_parent', None), ast.For) or isinstance(getattr(n, '_parent', None), ast.For)]
     last = _body(con)[-1]
-    r.check(isinstance(last, ast.Return) and norm(last.value) == 'True', 'contains:default-true', con.site, 'returns True when every scheduled bit is set',
-            'contains does not end with `return True`')
+    if isinstance(last, ast.Return) and isinstance(last.value, ast.Call) and norm(last.value.func) == 'all' and len(last.value.args) == 1 \
+            and isinstance(last.value.args[0], (ast.GeneratorExp, ast.ListComp)) and 'self.vData[' in norm(last.value.args[0].elt):
+        r.ok('contains:default-true', con.site, 'all(<bit set> for every scheduled index): true when every scheduled bit is set')
+    elif isinstance(last, ast.Return) and last.value is not None and not isinstance(last.value, ast.Constant):
+        r.undecided('contains:default-true', con.site, 'contains ends with `return %s`' % norm(last.value)[:60])
+    else:
+        r.check(isinstance(last, ast.Return) and norm(last.value) == 'True', 'contains:default-true', con.site, 'returns True when every scheduled bit is set',
+                'contains does not end with `return True`')
 
 
 def rule_guard(ctx, repo, ci):
